@@ -491,4 +491,5 @@ def rules(tier):
     return [rule_refresh, rule_err, rule_lse, rule_posterior, rule_memorder, rule_incumbent, rule_orient, rule_reg,
             carry.make_clone_rule("R-C10-clone", {"linfa_clustering"}, 10), carry.make_setter_rule("R-C10-override", {"linfa_clustering"}, 10), c04.make_carry_rule("R-C10-carry", {"GmmParams"}, 6),
             extrema.make_rule("R-C10-extrema", "the row maximum the mixture's log-sum-exp is shifted by is a real maximum: the fold starts from -infinity / min_value or from data", lambda f: f["d"]["krate"] == "linfa_clustering" and "gaussian_mixture" in f["d"]["path"] + " " + (f["d"].get("self_adt") or "") or (f["d"]["krate"] == "linfa_clustering" and "GaussianMixture" in (f["d"].get("self_adt") or "")), 1, "the max fold of the log-sum-exp shift in GaussianMixtureModel"),
-            precision.make_rule("R-C10-precision", lambda f: f["d"]["krate"] == "linfa_clustering" and any(x in f["d"]["path"] + " " + (f["d"].get("self_adt") or "") for x in ("gaussian_mixture", "GaussianMixture", "Gmm")), 35, "linfa-clustering gaussian_mixture")]
+            precision.make_rule("R-C10-precision", lambda f: f["d"]["krate"] == "linfa_clustering" and any(x in f["d"]["path"] + " " + (f["d"].get("self_adt") or "") for x in ("gaussian_mixture", "GaussianMixture", "Gmm")), 35, "linfa-clustering gaussian_mixture"),
+            carry.make_accessor_rule("R-C10-accessor", {"linfa_clustering"}, 10), carry.make_ctor_rule("R-C10-ctor", {"linfa_clustering"}, 4)]
